@@ -176,7 +176,7 @@ def run_tie(run, tier, seed, results):
     run.stream("bridge", n, nontrivial,
                inside_fragment=len(inside), model_package_equal_nets=len(equal), syntactically_identical=count(0),
                same_nets_only=count(7), outside_fragment=count(9), outside_shape_ok=sum(1 for i in range(n) if code[i] == 9 and why[i] & 1),
-               outside_closed_ok=sum(1 for i in range(n) if code[i] == 9 and why[i] & 2),
+               outside_closed_mod_ok=sum(1 for i in range(n) if code[i] == 9 and why[i] & 2),
                outside_wf_design=sum(1 for i in range(n) if code[i] == 9 and why[i] & 4),
                loops_outside_frag_ok2=count(8), rejected_by_impl=sum(1 for _, _, o in items if o["pkg"] is None),
                per_stream=per_stream,
